@@ -281,7 +281,7 @@ class Scenario:
             self.violations.append({"label": label, "kind": "concrete", "detail": detail})
         return bool(cond)
 
-    def must_not_raise(self, label, fn):
+    def must_not_raise(self, label, fn, any_origin=False):
         """run fn (a call into the library on a valid input): an exception raised by the library is a violation of any
         property that says what the call returns; engine limitations (Unsupported / HarnessError) pass through"""
         try:
@@ -292,6 +292,8 @@ class Scenario:
             import traceback
             tb = traceback.extract_tb(e.__traceback__)
             where = [f for f in tb if "/gpytorch/" in f.filename or "/linear_operator/" in f.filename]
+            if not where and any_origin:
+                where = list(tb)[-1:]  # (an operation on a library OBJECT, e.g. copy.deepcopy(model), that fails inside torch / the stdlib)
             if not where:
                 raise
             self._record(label + " raises", "concrete", "sat", detail=repr(e)[:200])
